@@ -86,6 +86,8 @@ func c11HostShape(h string) string {
 	switch {
 	case strings.HasPrefix(h, "["):
 		return "ipv6-literal"
+	case c11bNonASCII(h):
+		return "non-ascii" // host-byte-space family (c11bytes.go)
 	case strings.Contains(h, ":"):
 		return "port"
 	case h != strings.ToLower(h):
@@ -387,7 +389,7 @@ func c11GenProbes(g *vkit.Rand, s *c11RuleSet, n int) []c11Probe {
 }
 
 func c11(r *vkit.Run) {
-	r.SetRule("(1) exhaustive: every ordered selection of <=3 distinct (host,path) conditions from two 3-host x 4-path alphabets (A: a.x.com,*.x.com,* x /a,/a/*,/*,* ; B: b.a.x.com,*.a.x.com,*.x.com x /a/b,/a/b/*,/a/*,/a/), each looked up with ~100 host x path probes (case, :port, wildcard depth 1/2, bare suffix, /a vs /a/ vs /ab vs /a/b, empty path); (2) random: 1-8 rules with 0-3 hosts x 0-3 paths (exact, *.wildcard, *, omitted; exact, /p/*, trailing slash, *, omitted; IPv6-literal host 1/40), 60 probes derived from the rules by mutation. Rule sets with two rules for the same host+path, non-documented patterns (/fo*, *x.com), hosts with trailing dot or empty labels, and request paths not starting with '/' (other than empty) are excluded: the document is silent there. Loaded by RouteConfLoad, queried by HostTable.LookupCluster. Non-trivial = the probes of a rule set reached >=3 different (host class, path class) outcomes; distinct = route file")
+	r.SetRule("(1) exhaustive: every ordered selection of <=3 distinct (host,path) conditions from two 3-host x 4-path alphabets (A: a.x.com,*.x.com,* x /a,/a/*,/*,* ; B: b.a.x.com,*.a.x.com,*.x.com x /a/b,/a/b/*,/a/*,/a/), each looked up with ~100 host x path probes (case, :port, wildcard depth 1/2, bare suffix, /a vs /a/ vs /ab vs /a/b, empty path); (2) random: 1-8 rules with 0-3 hosts x 0-3 paths (exact, *.wildcard, *, omitted; exact, /p/*, trailing slash, *, omitted; IPv6-literal host 1/40), 60 probes derived from the rules by mutation. Rule sets with two rules for the same host+path, non-documented patterns (/fo*, *x.com), hosts with trailing dot or empty labels, and request paths not starting with '/' (other than empty) are excluded: the document is silent there. Loaded by RouteConfLoad, queried by HostTable.LookupCluster. Non-trivial = the probes of a rule set reached >=3 different (host class, path class) outcomes; distinct = route file." + c11BytesRule)
 	r.Assume("reference written from docs/zh_cn/introduction/route.md and the statement (host compare case-insensitive, port ignored)")
 	if r.Replay != "" {
 		var w struct {
@@ -405,6 +407,7 @@ func c11(r *vkit.Run) {
 		return
 	}
 	c11Exhaustive(r)
+	c11Bytes(r) // host-byte-space family: non-ASCII names, one-character neighbours (c11bytes.go)
 	n := r.N(2000, 50000)
 	vkit.Parallel(n, 0, func(i int) {
 		g := r.Rng("ruleset", i)
